@@ -438,6 +438,38 @@ func (c *consumer) initGroup() {
 	}
 }
 
+// userAssigned returns the partitions the user currently believes it owns:
+// everything passed to onAssigned that has not yet been passed to onRevoked
+// or onLost. This is what a final onRevoked / onLost must be called with
+// when the manage loop gives up its whole assignment. It must only be
+// called from the manage goroutine, between group sessions.
+//
+// For classic groups this is nowAssigned: it only changes in a sync
+// response, and the session that immediately follows tells the user.
+//
+// For 848, a heartbeat response stores the server's new assignment into
+// nowAssigned right away (g848.handleResp), but the user is only told
+// about the difference (onRevoked for what was taken away, onAssigned for
+// what was added) when the NEXT session begins. If the session that saw
+// the change ends with an error instead, the next session never begins:
+// the group is left or the client is closed while the end-of-session
+// onRevoked is still running, or the offset fetch fails. nowAssigned is
+// then missing partitions the user still owns, and using it would skip
+// onRevoked / onLost for them entirely while the leave hands them to
+// another member; it can also contain partitions the user was never
+// assigned. lastAssigned is updated only when a session begins, and that
+// session's prerevoke and onAssigned always complete before it returns,
+// so it is exactly what the user was last told it owns.
+func (g *groupConsumer) userAssigned() map[string][]int32 {
+	g.mu.Lock()
+	is848 := g.is848
+	g.mu.Unlock()
+	if is848 {
+		return g.lastAssigned
+	}
+	return g.nowAssigned.read()
+}
+
 func (g *groupConsumer) manageFailWait(consecutiveErrors int, err error) (ctxCanceled bool) {
 	// If the user has BlockPollOnRebalance enabled, we have to
 	// block around the onLost and assigning.
@@ -457,11 +489,11 @@ func (g *groupConsumer) manageFailWait(consecutiveErrors int, err error) (ctxCan
 		// onRevoked, but since we are handling this case for
 		// the cooperative consumer we may as well just also
 		// include the eager consumer.
-		g.cfg.onRevoked(g.cl.ctx, g.cl, g.nowAssigned.read())
+		g.cfg.onRevoked(g.cl.ctx, g.cl, g.userAssigned())
 	} else {
 		// Any other error is perceived as a fatal error,
 		// and we go into onLost as appropriate.
-		g.cfg.onLost(g.cl.ctx, g.cl, g.nowAssigned.read())
+		g.cfg.onLost(g.cl.ctx, g.cl, g.userAssigned())
 		g.cfg.hooks.each(func(h Hook) {
 			if h, ok := h.(HookGroupManageError); ok {
 				h.OnGroupManageError(err)
@@ -536,7 +568,7 @@ func (g *groupConsumer) manageFailWait(consecutiveErrors int, err error) (ctxCan
 func (g *groupConsumer) abandonAssignment(why string) {
 	g.c.waitAndAddRebalance()
 
-	g.cfg.onLost(g.cl.ctx, g.cl, g.nowAssigned.read())
+	g.cfg.onLost(g.cl.ctx, g.cl, g.userAssigned())
 
 	g.c.mu.Lock()
 	g.c.assignPartitions(nil, assignInvalidateAll, nil, why)
